@@ -31,12 +31,13 @@ TECHNIQUE = (
     "compiled and rendered by the real Template and compared with a reference interpreter of the IR"
 )
 LEVEL_TEXT = (
-    "Every expression filter list of <=k items over a 13-item alphabet (5 escapes, str/unicode, n, decode.utf8, 4 user "
-    "callables incl. a filter call and an attribute) under every combination of 6 default_filters settings, 5 page "
-    "filter settings and 5 positions, for 5 values; every filter= list on def/block/text with 3 buffer_filters settings; "
-    "every spelling of the expression from a bounded grammar (string literals over a 12-symbol content alphabet in all "
-    "quote styles, 39 bracket/comment/newline wrappers nested to depth 2-3) with the filter part in every spacing. "
-    "All are run on the real code; complete within those bounds, no sampling."
+    "Every expression filter list of <=k items (k=2 quick, 3 thorough; k+1 for lists with n or two user filters) over a "
+    "13-item alphabet (5 escapes, str/unicode, n, decode.utf8, 4 user callables incl. a filter call and an attribute) "
+    "under the combinations of 6 default_filters settings, 6 page filter settings and 5 positions stated in the bounds, "
+    "for 5 values (two strings, int, bytes, Markup); every filter= list on def/block/text with 3 buffer_filters "
+    "settings; every spelling of the expression from a bounded grammar (string literals over a 12-symbol content "
+    "alphabet in all quote styles, 40 bracket/comment/newline wrappers nested to depth 2-3) with the filter part in "
+    "every spacing. All are run on the real code; complete within those bounds, no sampling."
 )
 LEVEL_NOTE = (
     "Trusted: CPython eval/str, markupsafe.escape, html.entities, urllib.parse, the ~150-line reference interpreter "
@@ -54,21 +55,26 @@ ASSUMPTIONS = [
     "names in default_filters, buffer_filters and <%page expression_filter> are supplied at module level (imports= or <%! %>), as the documentation requires; expression-level and filter= names come from the context, <%! %>, imports= or a <% %> local",
     "a top-level | outside brackets is by documentation the filter separator: the spelling grammar places | only inside brackets or string literals; newlines occur only inside brackets or triple-quoted literals; filter lists are written on one line except inside a call's parentheses",
     "filter arguments are literals (the source generator that re-emits filter arguments is property C19's subject)",
+    "what <%call expr=...> does with the callee's return value is not fixed by the statement: both 'written as it is' and 'treated as ${expr} with an empty local filter list' are accepted",
+    "a user filter or decode.<enc> that raises must make render() raise (any exception class); nothing else is demanded there",
     "tagging user filters convert their argument with str() so that Markup.__add__ escaping never enters the comparison",
     "CPython eval/exec, str, markupsafe, html.entities, urllib.parse are trusted",
 ]
 BOUNDS = {
     "quick": {
-        "pipe": "k<=2 full: 183 lists x 6 D x 5 P x 5 positions x 5 values; k=3 lists containing n or >=2 user filters x 6 D x 5 P x positions {body, def} x 2 values",
-        "tagf": "k<=2 lists x 7 constructs(incl. calling-expression filter) x buffer_filters 3 (defs) / 2 x 2 D x 3 P x 2 values",
-        "bind": "k<=2 lists with a user filter x {module, imports, local} x {imports, module} x positions; decoys: k<=2 lists",
-        "spell": "atoms(content<=2) x 4 suffixes; depth1 (26 core atoms x 39 wrappers) x 4; depth2 (6 atoms) x 2; 90 spacings x 24; 15 filter-argument spellings; junctions; PEP 701 forms",
+        "pipe": "lists of <=2 of 13 filters x 6 default_filters x 5 page settings (6 for <=1 filter) x positions {body, def} (all 5 for <=1 filter) x 5 values; "
+        "3-filter lists containing n or >=2 user filters x 3 default_filters x 3 page settings x body x 2 values",
+        "tagf": "filter= lists of <=2 x {def, buffered def called plain and with |n, anonymous block, named block, text} x buffer_filters 3 (defs) / 1 x 3 (D,P) settings x 2 values; "
+        "buffered def without filter= x 3 calling filters x 3 buffer_filters x 6 D x 6 P x 5 values",
+        "bind": "lists of <=2 with a user filter x binding {<%! %>, imports=, <% %> local} x D/P/B names from {imports=, <%! %>} x 5 positions x 2 (D,P); decoy context names x lists <=2; raising stages",
+        "spell": "string atoms (content 1 of 12 symbols x 4 filter parts, content 2 x 2; 4 quote styles, r/f prefixes); 26 core atoms x 40 wrappers x 2; 2 atoms x 40^2 wrappers x 2; "
+        "90 spacings of the filter part x 22 expressions; 15 filter-argument spellings x 5; 8 x 6 junctions x 4 x 2; inner spaces; 8 f-string forms",
     },
     "thorough": {
-        "pipe": "k<=3 full: 2380 lists x 6 D x 5 P x 5 positions x 5 values; k=4 lists containing n or >=2 user filters x 6 D x 5 P x position body x 2 values",
-        "tagf": "k<=3 lists x 7 constructs x buffer_filters 3/2 x 3 D x 3 P x 2 values",
-        "bind": "as quick with k<=3",
-        "spell": "quick + atoms(content<=3) x 2; depth2 over all 26 core atoms x 2; depth3 (3 atoms x 39^3)",
+        "pipe": "lists of <=3 x 6 default_filters x 6 page settings x 5 positions x 5 values; 4-filter lists containing n or >=2 user filters x 3 default_filters x 3 page settings x body x 2 values",
+        "tagf": "filter= lists of <=3 x 7 constructs (quick's + def called with |n) x buffer_filters 3/1 x 6 (D,P) settings x 2 values; buffered def without filter= as quick",
+        "bind": "as quick",
+        "spell": "quick with 4 filter parts for atoms and depth 1, depth 2 over 4 atoms x 40^2 x 2; + atoms with content 3 x 2; 26 core atoms x 40^2 wrappers; 2 atoms x 40^3 wrappers",
     },
 }
 
@@ -187,7 +193,7 @@ def gen_pipe(tier, seed):
     full_k, sub_k = (2, 3) if quick else (3, 4)
     for L in lists_upto(F, full_k):
         # quick: the two block positions only for lists of <= 1 filter
-        poss = POSITIONS if not quick or len(L) <= 1 else ["body", "def", "call"]
+        poss = POSITIONS if not quick or len(L) <= 1 else ["body", "def"]
         Ps = P_ALL if not quick or len(L) <= 1 else P_ALL[:5]
         for D in D_ALL:
             for P in Ps:
@@ -198,24 +204,25 @@ def gen_pipe(tier, seed):
         if not special(L):
             continue
         for D in D_SUB:
-            for P in P_SUB if quick else P_ALL:
+            for P in P_SUB:
                 yield pipe_prog(L, D, P, "body"), (0, 2)
 
 
 def gen_tagf(tier, seed):
     F, _ = alphabet(seed)
     k = 2 if tier == "quick" else 3
-    Ds = [None, ["f3", "h"]] if tier == "quick" else [None, ["f3"], ["f3", "h"]]
-    Ps = [None, ["n", "f4"]] if tier == "quick" else [None, ["f4"], ["n", "f4"]]
+    if tier == "quick":
+        DPs = [(None, None), (["f3", "h"], None), (["f3", "h"], ["n", "f4"])]
+    else:
+        DPs = [(D, P) for D in (None, ["f3"], ["f3", "h"]) for P in (None, ["n", "f4"])]
     for L in lists_upto(F, k):
         for cons, ce in TAG_CONSTRUCTS:
             if tier == "quick" and (cons, ce) == ("def-f", ["n"]):
                 continue
             Bs = B_ALL if cons.startswith("def") else [B_ALL[2]]
             for B in Bs:
-                for D in Ds:
-                    for P in Ps:
-                        yield tagf_prog(L, cons, ce, B, D, P), (0, 1)
+                for D, P in DPs:
+                    yield tagf_prog(L, cons, ce, B, D, P), (0, 1)
     # buffered def without a filter= attribute: only buffer_filters apply
     for ce in ([], ["n"], ["f2"]):
         for B in B_ALL:
@@ -232,7 +239,7 @@ def gen_tagf(tier, seed):
 
 def gen_bind(tier, seed):
     F, _ = alphabet(seed)
-    k = 2 if tier == "quick" else 3
+    k = 2
     DP = [(None, None), (["f3"], ["f4"])]
     for L in lists_upto(F, k):
         if any(USER(f) for f in L):
